@@ -34,6 +34,7 @@ type Harness struct {
 	Stubs         map[string]*ssa.Function
 	StubNames     []string
 	Opaque        map[string]bool
+	NoInit        map[string]bool
 	Expect        string // "" | "violation" (self-test harnesses)
 	Bound         string // free-text bound statement from //verif:bound
 	QuoteApprox   bool   // //verif:quote approx
@@ -311,6 +312,15 @@ func (e *Engine) applyDirective(h *Harness, d string) error {
 	case "opaque":
 		for _, f := range fields[1:] {
 			h.Opaque[f] = true
+		}
+	case "noinit":
+		// noinit <pkgpath>...: the package initialiser is not run (its globals start at
+		// their zero values; a harness may assign the ones it needs)
+		if h.NoInit == nil {
+			h.NoInit = map[string]bool{}
+		}
+		for _, f := range fields[1:] {
+			h.NoInit[f] = true
 		}
 	case "stub":
 		// stub <target> = <harnessFunc>
